@@ -991,8 +991,21 @@ impl XmlCData {
         XmlCData::node("", None, context)
     }
 
-    pub fn delete(&mut self, offset: usize, count: usize) {
-        self.data = delete_char_range(self.data.as_str(), offset, count);
+    pub fn delete(&mut self, offset: usize, count: usize) -> error::Result<()> {
+        fn check(value: &str) -> error::Result<bool> {
+            let new = format!("<![CDATA[{}]]>", value);
+            let (rest, _) = xml_parser::cdsect(new.as_str())?;
+            Ok(rest.is_empty())
+        }
+
+        // removing a separator can join what must not be adjacent (`--`, `]]>`).
+        let data = delete_char_range(self.data.as_str(), offset, count);
+        if !check(data.as_str()).unwrap_or(false) {
+            return Err(error::Error::InvalidData(data));
+        }
+
+        self.data = data;
+        Ok(())
     }
 
     pub fn insert(&mut self, offset: usize, data: &str) -> error::Result<()> {
@@ -1220,8 +1233,21 @@ impl XmlComment {
         XmlComment::node("", None, context)
     }
 
-    pub fn delete(&mut self, offset: usize, count: usize) {
-        self.comment = delete_char_range(self.comment.as_str(), offset, count);
+    pub fn delete(&mut self, offset: usize, count: usize) -> error::Result<()> {
+        fn check(value: &str) -> error::Result<bool> {
+            let new = format!("<!--{}-->", value);
+            let (rest, _) = xml_parser::comment(new.as_str())?;
+            Ok(rest.is_empty())
+        }
+
+        // removing a separator can join what must not be adjacent (`--`, `]]>`).
+        let comment = delete_char_range(self.comment.as_str(), offset, count);
+        if !check(comment.as_str()).unwrap_or(false) {
+            return Err(error::Error::InvalidData(comment));
+        }
+
+        self.comment = comment;
+        Ok(())
     }
 
     pub fn insert(&mut self, offset: usize, comment: &str) -> error::Result<()> {
@@ -3582,8 +3608,20 @@ impl XmlText {
         XmlText::node("", None, context)
     }
 
-    pub fn delete(&mut self, offset: usize, count: usize) {
-        self.text = delete_char_range(self.text.as_str(), offset, count);
+    pub fn delete(&mut self, offset: usize, count: usize) -> error::Result<()> {
+        fn check(value: &str) -> error::Result<bool> {
+            let (rest, content) = xml_parser::content(value)?;
+            Ok(rest.is_empty() && content.children.is_empty())
+        }
+
+        // removing a separator can join what must not be adjacent (`--`, `]]>`).
+        let text = delete_char_range(self.text.as_str(), offset, count);
+        if !check(text.as_str()).unwrap_or(false) {
+            return Err(error::Error::InvalidData(text));
+        }
+
+        self.text = text;
+        Ok(())
     }
 
     pub fn insert(&mut self, offset: usize, text: &str) -> error::Result<()> {
